@@ -284,6 +284,10 @@ def tigerxml(tree, stream, **params):
     stream.write(u"  <terminals>\n")
     for terminal in trees.terminals(tree):
         stream.write(u"    <t id=\"%d\" " % terminal.data['num'])
+        if terminal.data['lemma'] is None:
+            terminal.data['lemma'] = trees.DEFAULT_LEMMA
+        if terminal.data['morph'] is None:
+            terminal.data['morph'] = trees.DEFAULT_MORPH
         for field in ['word', 'lemma', 'label', 'morph']:
             terminal.data[field] = quoteattr(terminal.data[field])
         stream.write(u"%s=%s " % ('word', terminal.data['word']))
@@ -299,6 +303,8 @@ def tigerxml(tree, stream, **params):
                          % (subtree.data['num'],
                             quoteattr(subtree.data['label'])))
             for child in trees.children(subtree):
+                if child.data['edge'] is None:
+                    child.data['edge'] = trees.DEFAULT_EDGE
                 stream.write(u"      <edge label=%s idref=\"%d\" />\n"
                              % (quoteattr(child.data['edge']),
                                 child.data['num']))
